@@ -78,7 +78,9 @@ ZOps == {"union", "intsec", "diff", "subset0", "subset1", "change", "singleton",
 QOf(op) == CASE op = "apply_exists" -> "exists" [] op = "apply_forall" -> "forall"
              [] op = "apply_unique" -> "unique"
 
+PickOps == {"pick_dd", "pick_dd_set"}
 PropOfOp(op) ==
+  IF op \in PickOps THEN "C13" ELSE
   IF op \in QuantOps \cup AQuantOps \cup {"restrict", "subst"} THEN "C04"
   ELSE IF op \in ZOps \cup {"make_node"} THEN "C09"
   ELSE "C02"
@@ -106,6 +108,160 @@ Expected(r) ==
     [] op = "cof_f" -> CofVal(Val(a[1]), FALSE)
 
 ----------------------------------------------------------------------------
+----------------------------------------------------------------------------
+(* C13: cube picking.  A result cube is given by its positive and negative
+   variables P, Ng.  `want` maps a level (1-based) to "t", "f" or "any":
+   the caller's choice for that level.  Walking the variable order, a
+   variable on which the current function does not depend must be left
+   don't care, a forced variable must take the forced value, every other
+   variable must follow `want`.  ZBDDs: a level without node (no member of
+   the current family contains the variable) forces false, hi = lo is the
+   don't care. *)
+(* a variable the current function does not depend on: left don't care; in
+   the literal-set variant (`len`) it may also take the requested polarity *)
+DcOk(v, P, Ng, w, len) ==
+  \/ v \notin (P \cup Ng)
+  \/ len /\ w = "t" /\ v \in P
+  \/ len /\ w = "f" /\ v \in Ng
+RECURSIVE BFollows(_, _, _, _, _, _)
+BFollows(cur, P, Ng, want, k, len) ==
+  IF k > n THEN cur = Asg(n)
+  ELSE LET v == l2v[k]
+           T == Cof(n, cur, v, TRUE)
+           E == Cof(n, cur, v, FALSE)
+       IN  IF T = E THEN DcOk(v, P, Ng, want[k], len) /\ BFollows(cur, P, Ng, want, k + 1, len)
+           ELSE IF T = {} THEN v \in Ng /\ BFollows(E, P, Ng, want, k + 1, len)
+           ELSE IF E = {} THEN v \in P /\ BFollows(T, P, Ng, want, k + 1, len)
+           ELSE CASE want[k] = "t" -> v \in P /\ BFollows(T, P, Ng, want, k + 1, len)
+                  [] want[k] = "f" -> v \in Ng /\ BFollows(E, P, Ng, want, k + 1, len)
+                  [] OTHER -> \/ v \in P /\ BFollows(T, P, Ng, want, k + 1, len)
+                              \/ v \in Ng /\ BFollows(E, P, Ng, want, k + 1, len)
+RECURSIVE ZFollows(_, _, _, _, _, _)
+ZFollows(cur, P, Ng, want, k, len) ==
+  IF k > n THEN cur = {0}
+  ELSE LET v == l2v[k]
+           hi == Subset1(cur, v)
+           lo == Subset0(cur, v)
+       IN  IF hi = {} THEN v \in Ng /\ ZFollows(lo, P, Ng, want, k + 1, len)
+           ELSE IF hi = lo THEN DcOk(v, P, Ng, want[k], len) /\ ZFollows(hi, P, Ng, want, k + 1, len)
+           ELSE IF lo = {} THEN v \in P /\ ZFollows(hi, P, Ng, want, k + 1, len)
+           ELSE CASE want[k] = "t" -> v \in P /\ ZFollows(hi, P, Ng, want, k + 1, len)
+                  [] want[k] = "f" -> v \in Ng /\ ZFollows(lo, P, Ng, want, k + 1, len)
+                  [] OTHER -> \/ v \in P /\ ZFollows(hi, P, Ng, want, k + 1, len)
+                              \/ v \in Ng /\ ZFollows(lo, P, Ng, want, k + 1, len)
+Follows(S, P, Ng, want, len) ==
+  /\ S # {} /\ P \cap Ng = {}
+  /\ IF kind = "zbdd" THEN ZFollows(S, P, Ng, want, 1, len) ELSE BFollows(S, P, Ng, want, 1, len)
+
+WantOfChoice(c) == [k \in 1 .. n |-> IF c[k] THEN "t" ELSE "f"]
+WantAny == [k \in 1 .. n |-> "any"]
+WantOfLits(L) == [k \in 1 .. n |-> IF l2v[k] \in CubePos(n, L) THEN "t"
+                                   ELSE IF l2v[k] \in CubeNeg(n, L) THEN "f" ELSE "any"]
+(* the callback log <<level argument, level of the node passed>>: at most one
+   call per level, always with a node of that level *)
+CallsOk(calls) ==
+  /\ \A i \in 1 .. Len(calls) : calls[i][1] = calls[i][2] /\ calls[i][1] \in 0 .. n-1
+  /\ \A i, j \in 1 .. Len(calls) : i # j => calls[i][1] # calls[j][1]
+
+(* result given as vector per variable: -1 don't care, 0 false, 1 true *)
+VecPos(c) == {v \in 0 .. n-1 : c[v + 1] = 1}
+VecNeg(c) == {v \in 0 .. n-1 : c[v + 1] = 0}
+
+(* result of pick_cube_dd / pick_cube_dd_set given as denotation R *)
+PickDdOk(r, R) ==
+  LET S == Val(r.a[1]) IN
+  IF S = {} THEN R = {}
+  ELSE /\ IsCube(n, R) /\ R \subseteq S
+       /\ Follows(S, CubePos(n, R), CubeNeg(n, R),
+                  IF r.op = "pick_dd" THEN WantOfChoice(r.choice) ELSE WantOfLits(Val(r.a[2])),
+                  r.op = "pick_dd_set")
+       /\ (r.op = "pick_dd" => CallsOk(r.calls))
+
+PickObs(r) ==
+  LET S == Val(r.a) IN
+  IF Has(r, "res") THEN << O("C13", "pick.failed:" \o r.variant, FALSE) >>
+  ELSE IF Has(r, "none") THEN << O("C13", "pick.none:" \o r.variant, S = {}) >>
+  ELSE LET P == VecPos(r.cube) Ng == VecNeg(r.cube) IN
+       << O("C13", "pick.unsat:" \o r.variant, S # {}),
+          O("C13", "pick.len:" \o r.variant, Len(r.cube) = n),
+          O("C13", "pick.implies:" \o r.variant, S # {} => CubeOf(n, P, Ng) \subseteq S),
+          O("C13", "pick.follows:" \o r.variant, S # {} =>
+              Follows(S, P, Ng, IF r.variant = "cube" THEN WantOfChoice(r.choice) ELSE WantAny, FALSE)),
+          O("C13", "pick.calls:" \o r.variant, r.variant = "cube" => CallsOk(r.calls)) >>
+TrPick ==
+  /\ Ev("pick")
+  /\ Step(PickObs(Rec[l]))
+  /\ UNCHANGED <<kind, n, l2v, hs, gcN, roN, aux>>
+
+(* uniform sampling statistics: counts = <<cube vector, occurrences>> *)
+UniObs(r) ==
+  LET S == Val(r.a)
+      C == r.counts
+      I == 1 .. Len(C)
+      sz(i) == Cardinality(CubeOf(n, VecPos(C[i][1]), VecNeg(C[i][1])))
+      RECURSIVE Sum(_)
+      Sum(i) == IF i = 0 THEN 0 ELSE C[i][2] + Sum(i - 1)
+  IN << O("C13", "uniform.none", (r.nones > 0) <=> (S = {})),
+        O("C13", "uniform.models", \A i \in I : S # {} /\ CubeOf(n, VecPos(C[i][1]), VecNeg(C[i][1])) \subseteq S),
+        O("C13", "uniform.cubes", \A i \in I : S # {} => Follows(S, VecPos(C[i][1]), VecNeg(C[i][1]), WantAny, FALSE)),
+        O("C13", "uniform.total", Sum(Len(C)) + r.nones = r.draws),
+        \* frequency of a cube within [0.6, 1.6] x draws * |cube| / |S| whenever >= 40 are expected
+        O("C13", "uniform.band", S # {} => \A i \in I :
+              (r.draws * sz(i) >= 40 * Cardinality(S)) =>
+                 /\ 10 * C[i][2] * Cardinality(S) >= 6 * r.draws * sz(i)
+                 /\ 10 * C[i][2] * Cardinality(S) <= 16 * r.draws * sz(i)) >>
+TrUni ==
+  /\ Ev("unistat")
+  /\ Step(UniObs(Rec[l]))
+  /\ UNCHANGED <<kind, n, l2v, hs, gcN, roN, aux>>
+
+----------------------------------------------------------------------------
+(* C12: model counting.  Numbers travel as base-2^15 limbs (least
+   significant first).  The exact count of S over `vars` variables is
+   |S| * 2^(vars - n); both sides are normalised to <<odd mantissa, exponent>>. *)
+B15 == 32768
+Trim(L) == IF L # <<>> /\ L[Len(L)] = 0 THEN SubSeq(L, 1, Len(L) - 1) ELSE L
+RECURSIVE TrimAll(_)
+TrimAll(L) == IF L # <<>> /\ L[Len(L)] = 0 THEN TrimAll(SubSeq(L, 1, Len(L) - 1)) ELSE L
+Half(L) == TrimAll([i \in 1 .. Len(L) |->
+              (L[i] \div 2) + (IF i < Len(L) /\ L[i + 1] % 2 = 1 THEN B15 \div 2 ELSE 0)])
+RECURSIVE NormPair(_, _)
+NormPair(L0, e) ==
+  LET L == TrimAll(L0) IN
+  IF L = <<>> THEN <<<<>>, 0>>
+  ELSE IF L[1] = 0 THEN NormPair(Tail(L), e + 15)
+  ELSE IF L[1] % 2 = 0 THEN NormPair(Half(L), e + 1)
+  ELSE <<L, e>>
+FromInt(c) == TrimAll(<<c % B15, (c \div B15) % B15, c \div (B15 * B15)>>)
+RECURSIVE BitLen(_)
+BitLen(c) == IF c = 0 THEN 0 ELSE 1 + BitLen(c \div 2)
+MaxLimbs(bits) == [i \in 1 .. (bits \div 15) + 1 |->
+                     IF i <= bits \div 15 THEN B15 - 1 ELSE 2^(bits % 15) - 1]
+
+CountOk(r) ==
+  LET c == Cardinality(Val(r.a))
+      k == r.vars - n
+      exp == NormPair(FromInt(c), k)
+      v == r.val
+      bits == IF r.ty = "u64" THEN 64 ELSE 128
+  IN  CASE r.ty \in {"u64", "u128"} ->
+             IF r.vars < bits THEN NormPair(v.limbs, 0) = exp
+             ELSE TrimAll(v.limbs) = MaxLimbs(bits) \/ (c = 0 /\ TrimAll(v.limbs) = <<>>)
+        [] r.ty = "f64" ->
+             IF c = 0 THEN v.exp = 0 /\ TrimAll(v.frac) = <<>> /\ v.sign = 0
+             ELSE IF BitLen(c) + k > 1024 THEN v.exp = 2047 /\ TrimAll(v.frac) = <<>> /\ v.sign = 0
+             ELSE /\ v.sign = 0 /\ v.exp \in 1 .. 2046
+                  /\ NormPair([i \in 1 .. 4 |-> v.frac[i] + (IF i = 4 THEN 128 ELSE 0)], v.exp - 1075) = exp
+        [] r.ty = "nat" -> ~v.nan /\ NormPair(v.limbs, v.exp) = exp
+CountObs(r) ==
+  IF Has(r, "res") THEN << O("C12", "satcount.failed:" \o r.ty, FALSE) >>
+  ELSE << O("C12", "satcount:" \o r.ty, r.vars >= n => CountOk(r)) >>
+TrCount ==
+  /\ Ev("satcount")
+  /\ Step(CountObs(Rec[l]))
+  /\ UNCHANGED <<kind, n, l2v, hs, gcN, roN, aux>>
+
+
 TrReset ==
   /\ Ev("reset")
   /\ kind' = Rec[l].kind /\ n' = 0 /\ l2v' = <<>> /\ hs' = NoHandles
@@ -147,7 +303,8 @@ OpObs(r, val) ==
     LET g == r.g
         ok == OpGraphOk(r)
     IN << O("C03", "op.graph", ok),
-          O(P, "sem:" \o r.op, ArgsLive(r) /\ val = Expected(r)),
+          O(P, "sem:" \o r.op, ArgsLive(r) /\
+                (IF r.op \in PickOps THEN PickDdOk(r, val) ELSE val = Expected(r))),
           O("C02", "eval", SeqToSet(r.tt) = val),
           O("C01", "canon.op", \A s \in Live : (Val(s) = val) <=> (EdgeOf(s) = r.e)),
           O("C03", "op.reduced", ok => (GraphOrdered(g) /\ \A i \in 1 .. Len(g) : NodeReduced(g[i]))),
@@ -331,6 +488,7 @@ TrSnap ==
              gcSeen |-> Rec[l].gc, roSeen |-> Rec[l].ro]
   /\ UNCHANGED <<kind, n, l2v, hs, gcN, roN>>
 
+
 ----------------------------------------------------------------------------
 TrInit ==
   /\ kind = "bdd" /\ n = 0 /\ l2v = <<>> /\ hs = NoHandles /\ gcN = 0 /\ roN = 0
@@ -339,7 +497,7 @@ TrInit ==
 TrNext ==
   \/ TrReset \/ TrAddVars \/ TrOp \/ TrCofNone \/ TrClone \/ TrDrop
   \/ TrGc \/ TrReorder \/ TrObs \/ TrSnap \/ TrAdopt \/ TrConstructMismatch
-  \/ TrRows \/ TrBegin
+  \/ TrRows \/ TrBegin \/ TrPick \/ TrUni \/ TrCount
 
 TrSpec == TrInit /\ [][TrNext]_tvars
 
